@@ -222,7 +222,7 @@ impl Scenario for C04 {
     fn runs(&self, tier: Tier) -> u64 {
         match tier {
             Tier::Quick => 20_000,
-            Tier::Thorough => 1_000_000,
+            Tier::Thorough => 10_000_000,
         }
     }
 
